@@ -118,6 +118,14 @@ def run(rep):
              'its count over ALL registrations reaches zero (shared with C07 '
              'R07.5 / C09 R09.6); otherwise live registrations for it stop '
              'answering while still being listed', floor=4)
+    rep.rule('R16.5', 'queries answer from the registrations, not from a '
+             'previous caller: LookupBase.lookup (PY and C) caches exactly what '
+             '_uncached_lookup returned and never the per-call default (shared '
+             'with C04 R04.6)', floor=3)
+    rep.rule('R16.6', 'unregister removes a registration whatever its truth '
+             'value: the only skips are "nothing stored" (is None) and "a '
+             'different object than the one named" (identity) (shared with C09 '
+             'R09.1)', floor=1)
     rep.decline('"every query answers as registries holding exactly the listed '
                 'registrations" and "rebuildUtilityRegistryFromLocalCache finds '
                 'nothing to repair" for arbitrary histories')
@@ -224,3 +232,13 @@ def run(rep):
     mutators.extendor_transitions(rep, 'R16.4', amod, 'subscribe', 'add')
     mutators.extendor_transitions(rep, 'R16.4', amod, 'unregister', 'remove')
     mutators.extendor_transitions(rep, 'R16.4', amod, 'unsubscribe', 'remove')
+
+    # ---- R16.5 / R16.6 ------------------------------------------------------------
+    from . import sem as _sem2, cside
+    _sem2.cached_lookup_spec(rep, 'R16.5', find_def(amod, 'LookupBase.lookup'),
+                             'LookupBase.lookup', '_uncached_lookup', '_getcache',
+                             'single-or-tuple', True, ['required', 'provided', 'name'])
+    u = cside.cu(rep)
+    cside.lookup_default_c(rep, u, 'R16.5')
+    cside.fills_one(rep, u, 'R16.5')
+    mutators.value_filter(rep, 'R16.6', amod)
